@@ -176,6 +176,9 @@ CORNER_LISTS = [
     # the largest alignment sits behind the varying span, is assumed (not computed) at its field, and the element ends
     # at a trailing alignment between the first group's alignment and the storage alignment (seeded C03_m3)
     PL("VaryingAssumedHighAfterSpan", P("t8"), COUNT8, V("t16", 8), P("f64", 16)),
+    # an aligned FixedSize range that is not the first parameter and starts at an offset that is not a multiple of a later,
+    # larger alignment: the running offset of the stride computation must carry over it (seeded C04_m5)
+    PL("FixedAlignedMidThenHigher", P("u8"), F("u16", 2), P("f64", 8)),
 ]
 
 # ---- non-trivial value types -------------------------------------------------------------------
@@ -196,6 +199,13 @@ OBJ_LISTS = [
 ]
 
 QUICK_LISTS = TEST_LISTS + CORNER_LISTS + OBJ_LISTS
+
+# a trivially copyable varying span inside a list that is not trivially relocatable: erase relocates element by element and
+# the span of each moved element is copied inside one block (seeded C01_m5).  Used by C06 only (rule L3m).
+OVERLAP_LISTS = [
+    PL("ObjAfterTrivialSpan", COUNT8, V("u32", 4), P("obj")),
+    PL("ObjBeforeTrivialSpan", P("obj"), COUNT8, V("u16", 2)),
+]
 
 # lists on which the constructor's byte budget under-estimates the worst-case padding (known finding D30): a varying span
 # whose item size is not a multiple of its alignment, followed by a lower-aligned field.  Used by C02 only.
